@@ -18,10 +18,20 @@ func pick(r *rand.Rand, xs ...int64) int64 { return xs[r.Intn(len(xs))] }
 func (f *Fam) genInit(r *rand.Rand) string {
 	ms := pick(r, 1000000, 1000000, 2000000, 5000000)
 	var sb strings.Builder
+	window := pick(r, 1, 2, 3, 5, 10)
+	minSigned := pick(r, 0, 50000000000000000, 500000000000000000, 500000000000000000, 950000000000000000, 1000000000000000000)
+	jail := pick(r, 600, 60, 3600) * sec
+	if f.Profile == "downtime" {
+		// long chains over windows of more than one byte's worth of slots: the bookkeeping of a large window
+		// (slot keys, wrap-around, clearing on jail) only shows after a few hundred blocks
+		window = pick(r, 256, 257, 300, 300, 511, 100)
+		minSigned = pick(r, 950000000000000000, 990000000000000000, 900000000000000000)
+		jail = pick(r, 1, 60) * sec
+	}
 	fmt.Fprintf(&sb, "init ms=%d mv=%d ut=%d w=%d mspw=%d jd=%d mea=%d sfds=%d sfdt=%d fee=%d",
-		ms, pick(r, 1, 2, 3, 5, 100000, 100000), pick(r, 3600, 7200, 60)*sec, pick(r, 1, 2, 3, 5, 10),
-		pick(r, 0, 50000000000000000, 500000000000000000, 500000000000000000, 950000000000000000, 1000000000000000000),
-		pick(r, 600, 60, 3600)*sec, pick(r, 120, 600)*sec,
+		ms, pick(r, 1, 2, 3, 5, 100000, 100000), pick(r, 3600, 7200, 60)*sec, window,
+		minSigned,
+		jail, pick(r, 120, 600)*sec,
 		pick(r, 50000000000000000, 50000000000000000, 500000000000000000, 1000000000000000000, 0, 1),
 		pick(r, 10000000000000000, 100000000000000000, 1000000000000, 0, 1000000000000000000),
 		pick(r, 0, 1000, 10000, 10000))
@@ -37,6 +47,9 @@ func (f *Fam) genInit(r *rand.Rand) string {
 		fmt.Fprintf(&sb, " acc %s %d", hx(Keys[i].Addr), pick(r, 0, 1000000, 100000000, 1000000000))
 	}
 	nv := r.Intn(7)
+	if f.Profile == "downtime" {
+		nv = 3 + r.Intn(4)
+	}
 	perm := r.Perm(NKeys)
 	for i, ki := range perm {
 		bal := pick(r, 0, 1, 999999, 1000000, 10000000, 100000000, 1000000000, int64(r.Intn(50000000)))
@@ -53,8 +66,14 @@ func (f *Fam) genInit(r *rand.Rand) string {
 		}
 	}
 	f.gen = genState{phase: 1, reliab: map[string]float64{}, maxBlocks: 8 + r.Intn(40)}
+	if f.Profile == "downtime" {
+		f.gen.maxBlocks = int(window) + 20 + r.Intn(2*int(window))
+	}
 	for i := 0; i < NKeys; i++ {
 		f.gen.reliab[hx(Keys[i].Addr)] = []float64{1, 1, 0.9, 0.5, 0.1, 0}[r.Intn(6)]
+		if f.Profile == "downtime" {
+			f.gen.reliab[hx(Keys[i].Addr)] = []float64{1, 0.97, 0.9, 0.5, 0, 0}[i%6]
+		}
 	}
 	return sb.String()
 }
@@ -108,7 +127,11 @@ func (f *Fam) genBegin(r *rand.Rand, s *Snapshot) string {
 		v = strings.Join(vs, ",")
 	}
 	e := "-"
-	if r.Intn(12) == 0 && len(s.Vals) > 0 {
+	evRate := 12
+	if f.Profile == "downtime" {
+		evRate = 150 // convictions would empty the validator set long before the windows fill
+	}
+	if r.Intn(evRate) == 0 && len(s.Vals) > 0 {
 		var l []string
 		for a := range s.Vals {
 			l = append(l, a)
@@ -341,6 +364,9 @@ func (f *Fam) Gen(r *rand.Rand, i int) string {
 	case 1:
 		f.gen.phase = 2
 		f.gen.txsLeft = int(pick(r, 0, 1, 2, 3, 5, 8))
+		if f.Profile == "downtime" {
+			f.gen.txsLeft = int(pick(r, 0, 0, 0, 0, 0, 1, 1, 2))
+		}
 		return f.genBegin(r, s)
 	case 2:
 		if f.gen.txsLeft <= 0 {
